@@ -980,7 +980,14 @@ pub const DBG_TAG: &str = "debug-assertions-build";
 /// `-C debug-assertions=on` (VERIF_BIN_DBG, built by ./check) and the whole totality run is
 /// repeated there; its failures carry the tag in their signature and case.
 pub fn run(cfg: &Cfg) -> Stats {
-    let mut total = run_own(cfg);
+    let total = run_own(cfg);
+    with_dbg_build(cfg, "C01", "--config-child", total)
+}
+
+/// Repeat the run of check `id` in the build with debug assertions on (VERIF_BIN_DBG) and merge
+/// what it found: failures carry the tag in signature and case, classes are prefixed, the
+/// non-trivial cases (the same inputs under another build) are reported but not added.
+pub fn with_dbg_build(cfg: &Cfg, id: &str, flag: &str, mut total: Stats) -> Stats {
     if cfg!(debug_assertions) {
         return total;
     }
@@ -988,7 +995,7 @@ pub fn run(cfg: &Cfg) -> Stats {
         total.oracle_error("VERIF_BIN_DBG is not set (the debug-assertions build of the harness is needed; ./check builds it)".into());
         return total;
     };
-    let out = Command::new(&bin).args(["C01", "--config-child", cfg.tier_name()]).env("VERIF_SEED", (cfg.seed as i64).to_string()).stderr(Stdio::null()).output();
+    let out = Command::new(&bin).args([id, flag, cfg.tier_name()]).env("VERIF_SEED", (cfg.seed as i64).to_string()).stderr(Stdio::null()).output();
     let parsed = out.ok().and_then(|o| {
         let text = String::from_utf8_lossy(&o.stdout).to_string();
         let line = text.lines().rev().find(|l| l.starts_with("STATS "))?.to_string();
@@ -1010,6 +1017,10 @@ pub fn run(cfg: &Cfg) -> Stats {
             let fails = std::mem::take(&mut o.failures);
             let counts = std::mem::take(&mut o.fail_counts);
             for (sig, mut f) in fails {
+                if total.failures.contains_key(&sig) {
+                    // the main build reports the same signature: one root cause, one line
+                    continue;
+                }
                 let nsig = format!("{DBG_TAG}:{sig}");
                 f.sig = nsig.clone();
                 if f.case.is_object() {
@@ -1018,6 +1029,9 @@ pub fn run(cfg: &Cfg) -> Stats {
                 o.failures.insert(nsig, f);
             }
             for (sig, n) in counts {
+                if total.failures.contains_key(&sig) {
+                    continue;
+                }
                 o.fail_counts.insert(format!("{DBG_TAG}:{sig}"), n);
             }
             total.extra.insert("debug_assertions_build".into(), json!({"evaluations": o.evals, "nontrivial_counted_separately": nt}));
@@ -1027,25 +1041,34 @@ pub fn run(cfg: &Cfg) -> Stats {
     total
 }
 
+/// child side of `with_dbg_build` for the checks other than C01
+pub fn dbg_child(st: &Stats) {
+    println!("STATS {}", stats_to_json(st));
+}
+
+/// replay of a case that belongs to the debug-assertions build: hand it to that binary
+pub fn replay_in_dbg_build(id: &str, case: &Value, st: &mut Stats) {
+    let Ok(bin) = std::env::var("VERIF_BIN_DBG") else { return };
+    let tmp = std::env::temp_dir().join(format!("{id}-replay-{}-{}.json", std::process::id(), hash_str(&case.to_string())));
+    let mut c = case.clone();
+    c.as_object_mut().map(|o| o.remove("build"));
+    let _ = std::fs::write(&tmp, json!({"case": c}).to_string());
+    if let Ok(out) = Command::new(bin).args([id, "--replay", &tmp.display().to_string()]).output() {
+        let text = String::from_utf8_lossy(&out.stdout).to_string();
+        if out.status.code() == Some(1) {
+            let detail: String = text.lines().filter_map(|l| l.trim().strip_prefix("detail: ")).collect::<Vec<_>>().join(" / ");
+            for sig in text.lines().filter_map(|l| l.trim().strip_prefix("signature: ")) {
+                st.fail(format!("{DBG_TAG}:{sig}"), case.clone(), case_bytes(case).map_or(0, |b| b.len()), format!("in the build with debug assertions on: {detail}"));
+            }
+        }
+    }
+    let _ = std::fs::remove_file(&tmp);
+}
+
 pub fn replay(case: &Value, st: &mut Stats) {
     if case.get("build").and_then(|k| k.as_str()) == Some(DBG_TAG) && !cfg!(debug_assertions) {
         // the case belongs to the debug-assertions build
-        if let Ok(bin) = std::env::var("VERIF_BIN_DBG") {
-            let tmp = std::env::temp_dir().join(format!("c01-replay-{}-{}.json", std::process::id(), hash_str(&case.to_string())));
-            let mut c = case.clone();
-            c.as_object_mut().map(|o| o.remove("build"));
-            let _ = std::fs::write(&tmp, json!({"case": c}).to_string());
-            if let Ok(out) = Command::new(bin).args(["C01", "--replay", &tmp.display().to_string()]).output() {
-                let text = String::from_utf8_lossy(&out.stdout).to_string();
-                if out.status.code() == Some(1) {
-                    let detail: String = text.lines().filter_map(|l| l.trim().strip_prefix("detail: ")).collect::<Vec<_>>().join(" / ");
-                    for sig in text.lines().filter_map(|l| l.trim().strip_prefix("signature: ")) {
-                        st.fail(format!("{DBG_TAG}:{sig}"), case.clone(), case_bytes(case).map_or(0, |b| b.len()), format!("in the build with debug assertions on: {detail}"));
-                    }
-                }
-            }
-            let _ = std::fs::remove_file(&tmp);
-        }
+        replay_in_dbg_build("C01", case, st);
         return;
     }
     if case.get("kind").and_then(|k| k.as_str()) == Some("long") {
